@@ -141,6 +141,13 @@ fn run_history(case: &Value, wrap: usize, rng: &mut StdRng, st: &mut Stats, obse
         let n = op["n"].as_u64().unwrap() as usize * unit;
         let exp_res = op["res"].as_str().unwrap();
         let exp_ret = op["ret"].as_u64().unwrap() as usize;
+        if diverged && matches!(o, "shrink" | "split") {
+            // after the known divergence the real reservation may hold less than the model's (a try_shrink the
+            // model rejects can succeed on the real, larger size): never call shrink/split outside their contract
+            if res[r - 1].as_ref().map(|x| x.size()).unwrap_or(0) < n {
+                break;
+            }
+        }
         let before_reserved = pool.reserved();
         let before_sizes: Vec<usize> = res.iter().map(|x| x.as_ref().map(|x| x.size()).unwrap_or(0)).collect();
         let mut got = "ok".to_string();
